@@ -181,3 +181,100 @@ Definition lib_ok_b (f : fs) (c : config) (dref : json) (after : option json) (l
     | None => false
     end
   else match after with None => true | Some _ => false end.
+
+(* ---------------------------------------------------------------- the standalone file: flag over file over default *)
+Definition flat_str (d : json) (k : string) : option string := as_str (get [PKey k] d).
+Definition flat_bool (d : json) (k : string) : option bool := as_bool (get [PKey k] d).
+Definition spec_eff_c (fl : flags) (d : json) : eff :=
+  let v := effective (flag_of (f_verbose fl)) (flat_bool d "verbose") false in
+  {| e_project := effective (f_project fl) (flat_str d "project_path") "./src-tauri";
+     e_output := effective (f_output fl) (flat_str d "output_path") "./src/generated";
+     e_lib := effective (f_validation fl) (flat_str d "validation_library") "none";
+     e_verbose := v; e_log_verbose := v;
+     e_visualize := effective (flag_of (f_visualize fl)) (flat_bool d "visualize_deps") false;
+     e_force := effective (flag_of (f_force fl)) (flat_bool d "force") false |}.
+
+(* C19-8: the standalone file is validated on its own, before the flags are applied: its
+   (possibly defaulted) project path or library is invalid although the effective
+   settings are valid *)
+Definition kf_cfile_prevalidated (f : fs) (fl : flags) (p : string) : bool :=
+  match fs_get f p with
+  | Some (NDoc (Some d)) =>
+      match from_flat d with
+      | Some c => match validate f c with
+                  | Some _ => negb (spec_invalid f (spec_eff_c fl d))
+                  | None => false
+                  end
+      | None => false
+      end
+  | _ => false
+  end.
+
+(* generate -c: a missing, unreadable or malformed file is refused; otherwise as generate *)
+Definition generate_c_ok_b (f : fs) (fl : flags) (p : string) (o : cli_obs) : bool :=
+  match fs_get f p with
+  | Some (NDoc (Some d)) =>
+      match from_flat d with
+      | None => match o with ORejected true => true | _ => false end
+      | Some _ =>
+          let e := spec_eff_c fl d in
+          if spec_invalid f e then match o with ORejected true => true | _ => false end
+          else match o with
+               | ORan e' => eff_eqb e e'
+               | ONoCommands => match fs_get f (e_project e) with Some NProj => false | _ => true end
+               | ORejected _ => false
+               end
+      end
+  | _ => match o with ORejected true => true | _ => false end
+  end.
+
+(* save_to_file then from_file gives back exactly the settings *)
+Definition flat_roundtrip_b (c : config) (loaded : option config) : bool :=
+  match loaded with Some c' => config_eqb c' c | None => false end.
+
+
+(* ---------------------------------------------------------------- the build-script loader: file over default *)
+(* the configuration file of the build script: the typegen section of tauri.conf.json in
+   the project root when there is one, else typegen.json *)
+Definition spec_eff_sec (sec : option json) : eff :=
+  let v := effective None (sec_bool sec "verbose") false in
+  {| e_project := effective None (sec_str sec "projectPath") "./src-tauri";
+     e_output := effective None (sec_str sec "outputPath") "./src/generated";
+     e_lib := effective None (sec_str sec "validationLibrary") "none";
+     e_verbose := v; e_log_verbose := v;
+     e_visualize := effective None (sec_bool sec "visualizeDeps") false;
+     e_force := effective None (sec_bool sec "force") false |}.
+Definition build_section (f : fs) : option json :=
+  match fs_get f "tauri.conf.json" with Some (NDoc (Some d)) => get P d | _ => None end.
+Definition spec_eff_build (f : fs) : eff :=
+  match build_section f with
+  | Some tg => spec_eff_sec (Some tg)
+  | None => match fs_get f "typegen.json" with
+            | Some (NDoc (Some t)) => spec_eff_c no_flags t
+            | _ => spec_eff_sec None
+            end
+  end.
+(* C19-9: the build script does not refuse a configuration it cannot use (invalid section,
+   malformed or invalid typegen.json): it logs a warning and falls back to the next source *)
+Definition kf_build_fallback (f : fs) : bool :=
+  match build_section f with
+  | Some tg => match validate f (config_of_section tg) with Some _ => true | None => false end
+  | None => match fs_get f "typegen.json" with
+            | Some (NDoc (Some t)) => match from_file f "typegen.json" with None => true | Some _ => false end
+            | _ => false
+            end
+  end.
+(* the oracle: a configuration that cannot be used must be refused; otherwise the run uses
+   the file's settings over the defaults (verbosity is not observable in the build script) *)
+Definition build_invalid (f : fs) : bool :=
+  kf_build_fallback f || spec_invalid f (spec_eff_build f).
+Definition eff_eqb_build (a b : eff) : bool :=
+  String.eqb (norm (e_project a)) (norm (e_project b)) && String.eqb (norm (e_output a)) (norm (e_output b))
+  && String.eqb (e_lib a) (e_lib b) && Bool.eqb (e_visualize a) (e_visualize b) && Bool.eqb (e_force a) (e_force b).
+Definition build_ok_b (f : fs) (o : cli_obs) : bool :=
+  if build_invalid f then match o with ORejected true => true | _ => false end
+  else match o with
+       | ORan e' => eff_eqb_build (spec_eff_build f) e'
+       | ONoCommands => match fs_get f (e_project (spec_eff_build f)) with Some NProj => false | _ => true end
+       | ORejected _ => false
+       end.
